@@ -12,15 +12,15 @@ P['C01'] = {
     'units': ['ring', 'stream'],
     'technique': 'Verus function contracts + representation invariant on the real circular_buffer.rs functions and the stream.rs wrappers (mechanically extracted each run)',
     'level_text': 'Deductive proof for all states, sizes and operation arguments (no bound): wf is established by Buffer::new and preserved by produce/consume; window ranges, refusal of oversize commit/consume, readable+writable==capacity and the FIFO/partition/stability lemmas are postconditions or lemmas over those contracts.',
-    'level_note': 'Trusted: mmap aliasing (Circ::new/full_buffer, unsafe), Mutex atomicity (lock code dropped by rule X-LOCK), std BTreeMap/sort shims. stream.rs: read_buf / write_buf are proved to be pure delegations (unit stream); new_stream, eof, wait_for_* are not under contract.',
+    'level_note': 'Trusted: mmap aliasing (Circ::new/full_buffer, unsafe), Mutex atomicity (lock code dropped by rule X-LOCK), std BTreeMap/sort shims. stream.rs (unit stream): read_buf / write_buf are proved to be pure delegations; new_stream / new_nocopy_stream hand out two ends of ONE fresh buffer / queue; ReadStream::eof; the packet streams NCReadStream::{pop, peek_size, eof} / NCWriteStream::push are a FIFO over a trusted VecDeque shim (pop returns the oldest packet exactly once, push appends).  wait_for_* (condvars) are not under contract.',
     'assumptions': [
         'A-ALIAS: Circ::new / Circ::full_buffer (mmap double mapping, unsafe slice construction) are trusted: window element i is ring[(start+i) % cap]',
         'X-LOCK: each Mutex critical section is atomic; lock/condvar/Arc reference counting are dropped by the extraction (no concurrency claim)',
-        'stream.rs: ReadStream::read_buf / WriteStream::write_buf are under contract as pure delegations (unit stream); new_stream, eof, wait_for_* are not',
+        'stream.rs: ReadStream::read_buf / WriteStream::write_buf are under contract as pure delegations (unit stream); new_stream, ReadStream::eof and the packet streams (pop / push / peek_size / eof / new_nocopy_stream) against shims of Arc (identity, strong_count at the time of the call) and VecDeque (pop_front / push_back / front / is_empty); each mutex critical section is atomic (rule X-NCQ, as X-LOCK); that the two ends alias one queue is the Arc identity, not modelled as shared state; wait_for_* / StreamWait are not under contract',
     ],
     'not_covered': ['Circ::new, Circ::full_buffer, Map::* (unsafe / FFI)', 'Buffer::wait_for_read / wait_for_write (condvar)',
                     'BufferReader::slice/iter/consume, BufferWriter::slice/fill_from_iter/produce (delegations through Arc / &mut slices)',
-                    'src/stream.rs: new_stream, eof(), wait_for_read/write, NC streams'],
+                    'src/stream.rs: wait_for_read / wait_for_write, StreamWait::{wait, closed} of all four stream ends (condvars, timeouts), ReadStream::from_slice (test only), total_size / free / refcount (one-line delegations)'],
 }
 P['C02'] = {
     'units': ['ring', 'stream'],
@@ -84,7 +84,7 @@ P['C08'] = {
     'not_covered': _NOT_COVERED_BLOCKS, 'assumptions': _BLOCK_ASSUME,
 }
 P['C09'] = {
-    'units': list(_BU) + _FIR + ['zc', 'symsync', 'il2p', 'sigmf', 'hdlc', 'fsrc', 'fsink', 'tcp', 'au', 'auenc', 'misc', 'synclib', 'bx:sync', 'bx:dsp'],
+    'units': list(_BU) + _FIR + ['zc', 'symsync', 'il2p', 'sigmf', 'hdlc', 'fsrc', 'fsink', 'tcp', 'au', 'auenc', 'misc', 'synclib', 'stream', 'bx:sync', 'bx:dsp'],
     'technique': 'Verus: call-site preconditions of consume/produce (n <= window, window belongs to the stream, not stale) and verdict postconditions on each covered work()',
     'level_text': 'Deductive proof for the covered work() bodies: every consume/produce call site stays within its window and uses a window of that stream; WaitForStream(s, need) is returned only when stream s offered fewer than need in this call (so the wait names the blocking stream and asks for what is missing); Again only from a call that made progress; an empty input yields a wait on the input; EOF only when the data is exhausted. No window escapes work() (syntactic check of rule X-WIN). Bounded only: wait truthfulness of sync blocks by timing (bx:sync), Again-means-progress of the float blocks (bx:dsp).',
     'level_note': 'Subset only. "holds no window after return" is a syntactic check of the extractor, stated as such.',
@@ -122,17 +122,17 @@ P['C17'] = {
 }
 
 P['C19'] = {
-    'units': ['syncx', 'synclib'],
+    'units': ['syncx', 'synclib', 'stream'],
     'technique': 'Verus function contracts on the code the derive macro GENERATES: rustc prints the macro expansion of derive users of every arity (vx/expand.py), the generated work / eof / new / process_sync_tags are cut from it and verified against the stream contract; loop invariants on the (desugared) per-sample loop',
     'level_text': 'Deductive proof, no bound on window lengths, tag counts or sample values, for eleven derive users covering 1..3 inputs x 1..3 outputs in sync mode (one of them stateful, with default / into / plain fields), two sync_tag users (one forwarding the tags of its SECOND input) and a new()-only user with a non-copy output: a call that returns Again took the same k >= 1 samples from every input and committed k to every output, k is exactly min(shortest input, smallest output space) (some stream is exhausted afterwards), output j sample i is process_sync of the inputs at i (for the stateful block: with the state after i earlier calls, so the kernel runs once per step, in order), the tags of the tag-source input reach every output exactly once on the same sample; WaitForStream names, with need 1, an input that is empty or an output that is full, and nothing moved; the generated assert_ne!s cannot fire; generated eof() is true only if every input has ended; generated new() stores the inputs it was given, pairs every output with a fresh stream and returns the read ends in declaration order, defaults / converts / stores the other fields.  The derive users must also COMPILE: a type error inside the derive expansion is reported as a violation with the failing program.',
-    'level_note': 'The verified text is rustc\'s pretty-printed expansion of the token stream rustradio_macros produced from /repo\'s current tree -- not the macro source, and not a transcription.  Trusted: the desugaring of the lazy iterator pipeline into a counted loop (rule X-SYNCLOOP, DESIGN.md section 4: take / zip / enumerate / izip! semantics), fold-min (X-XPAND), the tag-filter shim tags_at, ReadStream::eof and new_stream as specifications, the stream contract.  When the expansion no longer has the shape the rules know, the unit is undecided and the bounded harness bx/syncx_harness.rs (same blocks, same obligations, concrete schedules) stands in.',
+    'level_note': 'The verified text is rustc\'s pretty-printed expansion of the token stream rustradio_macros produced from /repo\'s current tree -- not the macro source, and not a transcription.  Trusted: the desugaring of the lazy iterator pipeline into a counted loop (rule X-SYNCLOOP, DESIGN.md section 4: take / zip / enumerate / izip! semantics), fold-min (X-XPAND), the tag-filter shim tags_at, the stream contract.  ReadStream::eof, new_stream and new_nocopy_stream, which the generated eof() / new() call, are under contract in unit stream (eof: exactly when this is the only handle left and the read window is empty; new_*: both ends hold one fresh buffer / empty queue).  When the expansion no longer has the shape the rules know, the unit is undecided and the bounded harness bx/syncx_harness.rs (same blocks, same obligations, concrete schedules) stands in.',
     'not_covered': ['arities above 3 x 3 (the generated code is uniform in the arity, but only 1..3 x 1..3 are instantiated)',
                     'freshness of the streams new() creates is stated as "empty and well formed"; that two calls of new_stream() return different streams is not expressible without a global ghost counter',
                     'the in-crate derive users (Tee, Add, ...): same generated text, see unit synclib where present; their kernels are under C10',
                     'BlockName, custom_name, noeof / nevereof attribute combinations', 'the non-sync path of the macro generates nothing but new(), eof() and the name'],
     'assumptions': ['X-SYNCLOOP: `let it = A.iter().take(n).zip(B.iter())..enumerate().map(|(pos, PAT)| BODY); for (S, O..) in izip!(it, O.slice().iter_mut()..) { (*O..) = S }` runs BODY for pos = 0, 1, .. min(n, A.len(), B.len().., O.len()..) - 1 in order, binding PAT to references to the pos-th elements and storing the result in the pos-th output slots',
-                    'ReadStream::eof() == "the writer is gone and the buffer is drained" (src/stream.rs, specification only here)',
-                    'new_stream() returns the two ends of one stream, empty and well formed',
+                    'ReadStream::eof() == "the writer is gone and the buffer is drained": proved of the real function in unit stream, with Arc::strong_count read at the time of the call and Buffer::read_buf as specified in unit ring',
+                    'new_stream() returns the two ends of one stream (proved in unit stream: one Arc, cloned); that the buffer Buffer::new returns is empty and well formed is proved in unit ring',
                     'the stream-API contract of units/stream_prelude.vx (its data and tag clauses are derived from the ring contracts in unit ring)'],
     'back_ends': 'Verus 0.2026.09.13 / Z3 (vx) on rustc -Zunpretty=expanded output; bounded stand-in / replay: cargo test of bx/syncx_harness.rs',
 }
